@@ -2,8 +2,10 @@
 from .. import lib, runner
 
 PROP = "C16"
-THEOREMS = ["Gpio.pin_table", "Gpio.input_delay", "Gpio.output_step", "Gpio.pins_independent", "Gpio.untouched_registers_keep", "Gpio.layout_wf", "Gpio.mux_inside", "Gpio.setclr_codes", "Gpio.mode_written"]
-IMPORTS = ["SocVerif.Props.C16"]
+THEOREMS = ["Gpio.pin_table", "Gpio.input_delay", "Gpio.output_step", "Gpio.pins_independent", "Gpio.untouched_registers_keep", "Gpio.layout_wf", "Gpio.mux_inside", "Gpio.setclr_codes", "Gpio.mode_written",
+            "GpioT.regs_distinct", "GpioT.setclr_codes_behind", "GpioT.mode_written_behind", "GpioT.output_written_behind", "GpioT.untouched_keep_behind",
+            "GpioT.input_delay_behind", "GpioT.input_read_atomic_behind", "GpioT.direct_is_closed", "GpioT.direct_meets_spec"]
+IMPORTS = ["SocVerif.Props.C16", "SocVerif.Props.C16T"]
 
 
 def run(rep, tier):
